@@ -16,11 +16,13 @@ traits that *are* tables, rewritten into lean/YashModel/Generated/KernelTables.l
 
   processFields    the fields of `struct Process`                 yash-env/src/system/virtual/process.rs
   forkInherited    the fields `Process::fork_from` takes from the parent (everything else is what the
-                   constructor `with_parent_and_group` gives a fresh process).  Read shapes: the constructor
-                   call or a struct literal `Process { f: parent.f.clone(), .., ..base }` bound to a local,
-                   `child.f = parent.f;`, `child.f = parent.f.clone();`, `child.f.clone_from(&parent.f);` in
-                   any order, a constructor argument `parent.f`, and a struct base `..parent.clone()` (= every
-                   field not named is inherited).  Any other statement fails loudly.
+                   constructor `with_parent_and_group` gives a fresh process).  Read shapes: the any number
+                   of `let [mut] x = <value>;` where a value is the constructor call, `parent.clone()`, a local
+                   bound earlier, or a struct literal `Process { f: parent.f.clone(), .., ..<value> }`; assignments
+                   `x.f = parent.f;`, `x.f = parent.f.clone();`, `x.f.clone_from(&parent.f);`, `x.f = <constant>;`
+                   on any local, in any order; the body ends in a value.  A constructor argument `parent.f` is an
+                   inherited field; a base `..parent.clone()` makes every field not named inherited.  Any other
+                   statement fails loudly.
 
 The pivot (lean/YashModel/Kernel/Signal.lean) is NOT a transcription of the simulator; the theorems
 `YashModel.Kernel.Signal.default_actions_match_code` and `YashModel.Kernel.open_flags_match_code`
@@ -275,26 +277,24 @@ def ctor_params(h, src):
     return names
 
 
-def base_expr(h, src, expr, parent, fields, inherited, what):
-    """a constructor call / struct literal / `parent.clone()` that yields the child before the assignments"""
+def eval_process(h, src, expr, parent, fields, env, what):
+    """the set of fields that the `Process` value `expr` takes from the parent.  `expr`: the constructor call, a
+    struct literal (optionally with `..base`), `parent.clone()`, or a local bound earlier (`env`)"""
     e = expr.strip()
+    if re.fullmatch(r"[a-z_]\w*", e) and e in env:
+        return set(env[e])
     m = re.match(r"(?:Self|Process)\s*::\s*with_parent_and_group\s*\((.*)\)$", e, flags=re.S)
     if m:
         params = ctor_params(h, src)
         args = [a for a in split_top(m.group(1), ",") if a.strip()]
         if len(args) != len(params):
             h.fail(f"kernel: {what}: with_parent_and_group called with {len(args)} arguments")
-        for prm, a in zip(params, args):
-            if from_parent(h, prm, a, parent, what):
-                inherited.add(prm)
-        return
+        return {prm for prm, a in zip(params, args) if from_parent(h, prm, a, parent, what)}
     if re.match(r"\*?" + re.escape(parent) + r"\s*\.\s*clone\s*\(\s*\)$", e) or e == "*" + parent:
-        inherited.update(fields)
-        return
+        return set(fields)
     m = re.match(r"(?:Self|Process)\s*\{(.*)\}$", e, flags=re.S)
     if m:
-        named = set()
-        base = None
+        named, inherited, base = set(), set(), None
         for part in split_top(m.group(1), ","):
             part = part.strip()
             if not part:
@@ -312,12 +312,9 @@ def base_expr(h, src, expr, parent, fields, inherited, what):
         if base is None:
             if named != set(fields):
                 h.fail(f"kernel: {what}: struct literal without a base does not name every field")
-            return
-        rest = set()
-        base_expr(h, src, base, parent, fields, rest, what)
-        inherited.update(rest - named)
-        return
-    h.fail(f"kernel: {what}: cannot read how the child is first built: `{e[:80]}`")
+            return inherited
+        return inherited | (eval_process(h, src, base, parent, fields, env, what) - named)
+    h.fail(f"kernel: {what}: cannot read how the child is built: `{e[:80]}`")
 
 
 def fork_inherited(h, src, fields):
@@ -328,44 +325,35 @@ def fork_inherited(h, src, fields):
     parent = m.group(2)
     body = strip_comments(h.item_body(src[m.start():], r"fn\s+fork_from\s*\([^)]*\)\s*->\s*\w+\s*", "body of " + what))
     stmts = [x.strip() for x in split_top(body, ";")]
-    inherited = set()
-    child = None
-    for i, st in enumerate(stmts):
-        last = i == len(stmts) - 1
+    while stmts and not stmts[-1]:
+        stmts.pop()      # `…; child;`-less bodies end in an expression; a trailing `;` would mean `()`: not a Process
+    if not stmts:
+        h.fail(f"kernel: {what}: empty body")
+    env = {}
+    for st in stmts[:-1]:
         if not st:
             continue
-        mm = re.match(r"let\s+(?:mut\s+)?(\w+)\s*(?::\s*\w+\s*)?=\s*(.*)$", st, flags=re.S)
-        if mm and child is None:
-            child = mm.group(1)
-            base_expr(h, src, mm.group(2), parent, fields, inherited, what)
+        mm = re.match(r"let\s+(?:mut\s+)?([a-z_]\w*)\s*(?::\s*\w+\s*)?=\s*(.*)$", st, flags=re.S)
+        if mm:
+            env[mm.group(1)] = eval_process(h, src, mm.group(2), parent, fields, env, what)
             continue
-        if child is None and last:
-            base_expr(h, src, st, parent, fields, inherited, what)   # the body is one expression
-            child = ""
-            continue
-        if child is None:
-            h.fail(f"kernel: {what}: statement before the child exists: `{st[:60]}`")
-        if last and st == child:
-            continue
-        mm = re.match(re.escape(child) + r"\s*\.\s*([a-z_]\w*)\s*=(?!=)\s*(.*)$", st, flags=re.S)
-        if mm and mm.group(1) in fields:
-            f = mm.group(1)
-            if from_parent(h, f, mm.group(2), parent, what):
-                inherited.add(f)
+        mm = re.match(r"([a-z_]\w*)\s*\.\s*([a-z_]\w*)\s*=(?!=)\s*(.*)$", st, flags=re.S)
+        if mm and mm.group(1) in env and mm.group(2) in fields:
+            v, f = mm.group(1), mm.group(2)
+            if from_parent(h, f, mm.group(3), parent, what):
+                env[v].add(f)
             else:
-                inherited.discard(f)
+                env[v].discard(f)
             continue
-        mm = re.match(re.escape(child) + r"\s*\.\s*([a-z_]\w*)\s*\.\s*clone_from\s*\((.*)\)$", st, flags=re.S)
-        if mm and mm.group(1) in fields:
-            f = mm.group(1)
-            if not from_parent(h, f, mm.group(2), parent, what):
+        mm = re.match(r"([a-z_]\w*)\s*\.\s*([a-z_]\w*)\s*\.\s*clone_from\s*\((.*)\)$", st, flags=re.S)
+        if mm and mm.group(1) in env and mm.group(2) in fields:
+            v, f = mm.group(1), mm.group(2)
+            if not from_parent(h, f, mm.group(3), parent, what):
                 h.fail(f"kernel: {what}: clone_from of something that is not the parent's `{f}`")
-            inherited.add(f)
+            env[v].add(f)
             continue
         h.fail(f"kernel: {what}: statement the extractor does not understand: `{st[:80]}`")
-    if child is None:
-        h.fail(f"kernel: {what}: empty body")
-    return sorted(inherited)
+    return sorted(eval_process(h, src, stmts[-1], parent, fields, env, what))
 
 
 def lean_rows(h, rows, order=None):
